@@ -52,7 +52,7 @@ ASSUMPTIONS = [
     "quantities whose definition is unstable at the input (angles of near-zero rays, Sholl radii "
     "on a node distance) are not compared",
 ]
-REQUIRED = ["sholl_objects_read_after_an_in_place_move", "twins_measured_from_inside_a_traversal", "pairs", "rotations", "translations", "scalings", "renumberings", "library_motions",
+REQUIRED = ["twins_measured_under_custom_column_names", "densely_sampled_long_trees", "sholl_objects_read_after_an_in_place_move", "twins_measured_from_inside_a_traversal", "pairs", "rotations", "translations", "scalings", "renumberings", "library_motions",
             "length_compared", "multisets_compared", "per_node_compared", "sholl_fixed_radii_compared",
             "sholl_steps_compared", "angles_compared", "orders_compared", "volume_compared",
             "small_extent_scalings", "file_sourced_trees", "tap_sholl_get",
@@ -369,10 +369,55 @@ def compare(ctx, case, A, B, refA: Ref, refB: Ref, new_of_old, s, radii_margin):
                                          f"{tol:.3g})")
 
 
+def _exec_dense(ctx, case):
+    """A long, finely sampled process (tens of thousands of equal short compartments): its length
+    does not depend on the numbering, and scales with the neuron."""
+    from swcgeom.analysis import extract_feature
+    from swcgeom.core import Tree
+
+    n, step = case["dense"], case["step"]
+    x = (np.arange(n) * step).astype(np.float32)
+    y = (np.arange(n) % 2 * np.float32(step / 3)).astype(np.float32)
+    a = Tree(n, pid=np.arange(-1, n - 1, dtype=np.int32), x=x, y=y)
+    # the same chain numbered the other way round below the root (root stays node 0)
+    order = np.concatenate([[0], np.arange(n - 1, 0, -1)])          # new position -> old node
+    new_of_old = np.empty(n, dtype=np.int64)
+    new_of_old[order] = np.arange(n)
+    pid_old = np.arange(-1, n - 1)[order]
+    b = Tree(n, pid=np.where(pid_old < 0, -1, new_of_old[np.maximum(pid_old, 0)]).astype(np.int32),
+             x=x[order].copy(), y=y[order].copy())
+    c = Tree(n, pid=np.arange(-1, n - 1, dtype=np.int32), x=x * np.float32(4), y=y * np.float32(4))
+    la, lb, lc = float(a.length()), float(b.length()), float(c.length())
+    fa = float(np.asarray(extract_feature(a).get("length")).ravel()[0])
+    ctx.count("densely_sampled_long_trees")
+    for what, got, want in (("after renumbering", lb, la), ("of the neuron scaled by 4", lc, 4 * la),
+                            ("through the front end", fa, la)):
+        if abs(got - want) > 2e-5 * abs(want):
+            raise Mismatch("length", f"length {what}: {got!r}, expected {want!r} ({n - 1} compartments "
+                                     f"of about {step}; relative difference "
+                                     f"{abs(got - want) / abs(want):.2e})")
+
+
+def _pose_bundle(t):
+    """A cross-section of the pose-independent measurements as plain data."""
+    from swcgeom.analysis import Sholl, extract_feature, get_volume
+
+    fe = extract_feature(t)
+    sh = Sholl(t)
+    radii = np.linspace(0, float(sh.rmax), 8)[1:-1]
+    return {"length": float(t.length()), "branch_length": np.asarray(fe.get("branch_length")),
+            "path_length": np.asarray(fe.get("path_length")),
+            "order": np.asarray(fe.get("node_branch_order")),
+            "sholl": np.asarray(sh.get(steps=radii)), "rmax": float(sh.rmax),
+            "volume": [float(get_volume(t, accuracy=k)) for k in (1, 2, 3)]}
+
+
 def execute(ctx, case):
     try:
         with warnings.catch_warnings():
             warnings.simplefilter("ignore")
+            if case.get("dense"):
+                return _exec_dense(ctx, case)
             _exec(ctx, case)
     except Mismatch as m:
         ctx.violation(m.mech, m.detail + f" | motion: rotate={case['rotate']} translate="
@@ -496,6 +541,12 @@ def _exec(ctx, case):
                     want_volume, soma_ok)
     # re-key B's per-node dict is already by new ids
     compare(ctx, case, A, B, refA, refB, new_of_old, s, margin)
+    if case["mseed"] % 4 == 3 and 3 <= n <= 120 and not zero_seg and type(tree2).__name__ == "Tree":
+        # the moved neuron held under custom column names (`names=`): the same measurements
+        r = G.same_under_renaming(_pose_bundle, tree2, level=case["mseed"] // 4 % 2)
+        ctx.count("twins_measured_under_custom_column_names")
+        if r:
+            raise Mismatch("custom-column-names", f"morphometrics of the moved neuron: {r}")
     case.pop("_radii_B", None)
 
 
@@ -552,6 +603,12 @@ def run(ctx):
                     "volume": False}
             ctx.case(case, klass="size-sweep")
             ctx.count("size_sweep_cases")
+            execute(ctx, case)
+        if ctx.shard == 3 % ctx.nshards:
+            case = {"dense": 30001 if ctx.quick else 120001,
+                    "step": float(rng.choice([0.013, 0.0081, 0.3])), "rotate": False,
+                    "translate": 0.0, "scale": 4.0, "renumber": True, "by": "harness"}
+            ctx.case(case, klass="dense-chain")
             execute(ctx, case)
         for j, rc in enumerate(G.real_recipes(rng, 1000)):
             if j % ctx.nshards == ctx.shard:
